@@ -28,18 +28,18 @@ def model(fn, always=False):
 
 
 def _pytype(v):
-    if isinstance(v, (Sym, FmtStr, SymSeq)):
+    if isinstance(v, (Sym, FmtStr, SymSeq)) or getattr(v, '_pyvc_model', False):
         return v.pytype
     return type(v)
 
 
-@model(builtins.isinstance)
+@model(builtins.isinstance, always=True)
 def m_isinstance(interp, obj, cls):
     if isinstance(cls, Sym):
         raise Unsupported("isinstance against a symbolic class")
     if isinstance(cls, tuple):
         return any(m_isinstance(interp, obj, c) for c in cls)
-    if isinstance(obj, (Sym, FmtStr, SymSeq)):
+    if isinstance(obj, (Sym, FmtStr, SymSeq)) or getattr(obj, '_pyvc_model', False):
         return issubclass(obj.pytype, cls)
     return isinstance(obj, cls)
 
@@ -76,7 +76,10 @@ def m_int(interp, v=0, base=None):
     if isinstance(v, SReal):
         fl = z3.ToInt(v.t)
         return SInt(z3.If(v.t >= 0, fl, -z3.ToInt(-v.t)))
-    from .lex import lex_int
+    from .lex import lex_int, FracFloat
+    from .timemodel import TotalSeconds
+    if isinstance(v, (FracFloat, TotalSeconds)):
+        return v.to_int(interp)
     return lex_int(interp, v)
 
 
@@ -293,7 +296,8 @@ def m_hash(interp, v):
 def m_Decimal(interp, v='0', ctx=None):
     if isinstance(v, (SInt, SReal)):
         return v   # exact: Decimal(int) denotes the same number
-    raise Unsupported("Decimal() of %r" % (v,))
+    from .lex import lex_decimal
+    return lex_decimal(interp, v)
 
 
 # -- methods of concrete containers that merely store / pass values through ----------------------
@@ -408,3 +412,15 @@ import re as _re
 from . import regexmodel as _rm
 METHOD_MODELS[(_re.Pattern, 'match')] = _rm.m_match
 METHOD_MODELS[(_re.Pattern, 'fullmatch')] = _rm.m_fullmatch
+
+
+from . import timemodel as _tm
+_tm.install(BUILTIN_MODELS)
+import math as _math
+
+
+def _m_modf(interp, x):
+    raise Unsupported("math.modf of a symbolic float")
+
+
+BUILTIN_MODELS[_math.modf] = _m_modf
